@@ -172,9 +172,13 @@ def alg_matrix(world, pool, tier, rng, sample=None, part=None):
                     v = pool.sign(name, K.ORD_ALG[pin], msg)
                     if v is not None:
                         sigs.append(("valid-under-pin", v))
+            if route == "cb-override" and hname == "HS256":
+                # a MAC under the key that setkey installed and the callback then replaced: the token is judged by the key in force
+                sigs.append(("hmac-decoy", hs_sig(1, pool.keys["oct32"].k, msg)))
             for sname, sig in sigs:
                 tok = msg + b"." + sig
-                valid = sname == "valid" or (sname == "hmac-oct" and key is not None and hname in HS_MIN and usable(key, hname))
+                valid = sname == "valid" or (sname in ("hmac-oct", "hmac-decoy") and key is not None and key.kind == "oct" and hname in HS_MIN and usable(key, hname)
+                                             and hs_sig(K.ALG_ORD[hname], key.k, msg) == sig)
                 if not eff_ok:
                     may_accept = False
                 elif eff_key is None:
@@ -183,6 +187,8 @@ def alg_matrix(world, pool, tier, rng, sample=None, part=None):
                     may_accept = valid and K.ALG_ORD.get(hname, -1) == pin and pin not in (0, 15)
                 metas.append((len(world.ops), {"kind": "verify", "cfg_alg": cfg_alg, "key": name, "attr": attr, "route": route,
                                                "hdr": hname, "sig": sname, "may_accept": may_accept,
+                                               # a genuine token under the key and algorithm in force verifies, whichever route put them there
+                                               "must_accept": bool(may_accept) and sname == "valid" and eff_key is not None,
                                                "has_key": eff_key is not None}))
                 world.op("ck 0 verify " + hx(tok), tag="verify")
     return metas
